@@ -272,6 +272,7 @@ type env struct {
 	// correspondence cases with long lines go to a shard of their own (cost is per byte, not per case)
 	toLong    bool
 	longCases []string
+	wrapCases []string // cases for Verif.C26.Wrapper (cases_wrap_NNN.v)
 }
 
 func (e *env) parses(src string) bool {
@@ -364,6 +365,8 @@ func (e *env) check(kind, name, input string, allc, toCoq, wantParse bool) {
 		return
 	}
 	_ = otherErr // (already reported; the chunks are still judged by O2-O5: an error does not excuse a cut inside a literal)
+	var wobs []chunk
+	haveW := false
 	// ---- O1 once more, on what the consumers of the reader receive (Globals.ReadMultiline)
 	if len(o.rlErrs) == 0 {
 		if e.gw == nil {
@@ -371,6 +374,7 @@ func (e *env) check(kind, name, input string, allc, toCoq, wantParse bool) {
 			e.gw.Stderr, e.gw.Stdout = io.Discard, io.Discard
 		}
 		wc, wpanic, wrun := runWrapper(e.gw, input, allc)
+		wobs, haveW = wc, wpanic == nil && !wrun
 		var wb strings.Builder
 		for _, c := range wc {
 			wb.WriteString(c.Src)
@@ -544,6 +548,15 @@ func (e *env) check(kind, name, input string, allc, toCoq, wantParse bool) {
 			e.longCases = append(e.longCases, term)
 		} else {
 			e.cw.Add(term)
+			// the chunks Globals.ReadMultiline delivered, for Verif.C26.Wrapper (every input without final newline, 1/4 of the others)
+			if haveW && (!strings.HasSuffix(input, "\n") || e.idx%4 == 0) {
+				var ws []string
+				for _, c := range wobs {
+					ws = append(ws, fmt.Sprintf("(%d, %s)", len(c.Src), vh.CoqZ(int64(c.First))))
+				}
+				e.wrapCases = append(e.wrapCases, fmt.Sprintf("mkWCase %d %s (unhex \"%s\") %s", e.idx, vh.CoqBool(allc), hex.EncodeToString([]byte(input)), vh.CoqList(ws, "(Z * Z)")))
+				e.extra["coq_wrapper_cases"]++
+			}
 		}
 		e.rep.CaseInput(e.idx, map[string]interface{}{"kind": kind, "name": name, "allcomments_first": allc, "input": input})
 		e.idx++
@@ -948,6 +961,17 @@ func main() {
 		txt := coqHeader + "\nDefinition cases : list case := [\n " + strings.Join(e.longCases, ";\n ") +
 			"\n].\nDefinition verif_mismatches : list Z := Eval vm_compute in mismatches cases.\nPrint verif_mismatches.\n"
 		if err := os.WriteFile(a.Path("cases_long.v"), []byte(txt), 0o644); err != nil {
+			panic(err)
+		}
+	}
+	for sh := 0; sh*400 < len(e.wrapCases); sh++ {
+		hi := (sh + 1) * 400
+		if hi > len(e.wrapCases) {
+			hi = len(e.wrapCases)
+		}
+		txt := strings.Replace(coqHeader, "C26.Model.", "C26.Model C26.Wrapper.", 1) + "\nDefinition cases : list wcase := [\n " + strings.Join(e.wrapCases[sh*400:hi], ";\n ") +
+			"\n].\nDefinition verif_mismatches : list Z := Eval vm_compute in wmismatches cases.\nPrint verif_mismatches.\n"
+		if err := os.WriteFile(a.Path(fmt.Sprintf("cases_wrap_%03d.v", sh)), []byte(txt), 0o644); err != nil {
 			panic(err)
 		}
 	}
